@@ -259,7 +259,7 @@ func (st *c12State) intentOf(e *Emission) c12Intent {
 			for _, at := range c12GuardAtoms(gd.Cond.Expr, gd.Pol) {
 				// cursor.F != next.F
 				if bx, by, ok := c12Differs(at.e, at.pol); ok {
-					lf, rf := c12FieldOf(info, bx), c12FieldOf(info, by)
+					lf, rf := c12FieldVia(cx.fn, bx), c12FieldVia(cx.fn, by)
 					if lf != nil && lf == rf {
 						if it.kind == "" || it.kind == "field" {
 							it = c12Intent{kind: "field", field: lf, guard: canonExpr(info, &ast.BinaryExpr{X: bx, Op: token.NEQ, Y: by})}
@@ -268,7 +268,7 @@ func (st *c12State) intentOf(e *Emission) c12Intent {
 					}
 				}
 				// X & C != 0
-				x, m, ok := c12MaskTest(info, at.e, at.pol)
+				x, m, ok := c12MaskTest(info, at.e, at.pol, st.rows[e])
 				if !ok {
 					continue
 				}
@@ -314,10 +314,17 @@ func c12GuardAtoms(e ast.Expr, pol bool) []c12Atom {
 
 // c12MaskTest: does atom==pol state that (X & mask) is non-zero? Forms: X&m != 0, 0 != X&m, X&m > 0,
 // X&m == m (single bit), m&X …, and their negations with opposite polarity.
-func c12MaskTest(info *types.Info, e ast.Expr, pol bool) (x ast.Expr, mask int64, ok bool) {
+func c12MaskTest(info *types.Info, e ast.Expr, pol bool, row *c12Row) (x ast.Expr, mask int64, ok bool) {
 	b, isBin := unparen(e).(*ast.BinaryExpr)
 	if !isBin {
 		return nil, 0, false
+	}
+	// constants: of the type checker, or a field of the table row this emission was expanded from
+	constInt := func(info *types.Info, e ast.Expr) (int64, bool) {
+		if v, ok := constInt(info, e); ok {
+			return v, true
+		}
+		return row.intField(info, e)
 	}
 	l, r := unparen(b.X), unparen(b.Y)
 	op := b.Op
@@ -389,6 +396,61 @@ func c12FieldOf(info *types.Info, e ast.Expr) *types.Var {
 	return v
 }
 
+// c12FieldVia: the struct field an expression reads, directly or through single-definition locals
+// (`ul := next.UnderlineStyle; if cursor.UnderlineStyle != ul`).
+func c12FieldVia(fi *FuncInfo, e ast.Expr) *types.Var {
+	info := fi.Pkg.TypesInfo
+	for depth := 0; depth < 4; depth++ {
+		e = unparen(e)
+		if f := c12FieldOf(info, e); f != nil {
+			return f
+		}
+		id, ok := e.(*ast.Ident)
+		if !ok {
+			return nil
+		}
+		obj := info.ObjectOf(id)
+		if obj == nil {
+			return nil
+		}
+		def := c12SingleDef(fi, obj)
+		if def == nil || c12AssignedElsewhere(fi, obj) {
+			return nil
+		}
+		e = def
+	}
+	return nil
+}
+
+// c12AssignedElsewhere: the local is also written by ++/--, op-assignment targets are covered by c12SingleDef
+// (it counts every assignment); this looks for inc/dec, range clauses and address-taking.
+func c12AssignedElsewhere(fi *FuncInfo, obj types.Object) bool {
+	info := fi.Pkg.TypesInfo
+	found := false
+	ast.Inspect(fi.Decl.Body, func(n ast.Node) bool {
+		switch t := n.(type) {
+		case *ast.IncDecStmt:
+			if id, ok := unparen(t.X).(*ast.Ident); ok && info.ObjectOf(id) == obj {
+				found = true
+			}
+		case *ast.RangeStmt:
+			for _, x := range []ast.Expr{t.Key, t.Value} {
+				if id, ok := x.(*ast.Ident); ok && info.ObjectOf(id) == obj {
+					found = true
+				}
+			}
+		case *ast.UnaryExpr:
+			if t.Op == token.AND {
+				if id, ok := unparen(t.X).(*ast.Ident); ok && info.ObjectOf(id) == obj {
+					found = true
+				}
+			}
+		}
+		return !found
+	})
+	return found
+}
+
 // singleDef returns the right-hand side of the only definition of a local variable in fn (nil otherwise).
 func c12SingleDef(fi *FuncInfo, obj types.Object) ast.Expr {
 	info := fi.Pkg.TypesInfo
@@ -458,14 +520,13 @@ func (st *c12State) attrRole(fn *FuncInfo, x ast.Expr) string {
 func (st *c12State) attrField(e *Emission) *types.Var {
 	var out *types.Var
 	for _, cx := range st.guardCtxs(e) {
-		info := cx.fn.Pkg.TypesInfo
 		for _, gd := range cx.guards {
 			if gd.Cond.Tag != nil || gd.Cond.Alts != nil {
 				continue
 			}
 			for _, at := range c12GuardAtoms(gd.Cond.Expr, gd.Pol) {
 				if bx, by, ok := c12Differs(at.e, at.pol); ok {
-					if lf, rf := c12FieldOf(info, bx), c12FieldOf(info, by); lf != nil && lf == rf {
+					if lf, rf := c12FieldVia(cx.fn, bx), c12FieldVia(cx.fn, by); lf != nil && lf == rf {
 						out = lf
 					}
 				}
@@ -536,7 +597,6 @@ func (st *c12State) vocabulary() {
 		"vaxis.(*writer).WriteString": "payload pass-through of the buffered writer (the payload is checked at its origin)",
 		"vaxis.(*writer).Printf":      "payload pass-through of the buffered writer (the payload is checked at its origin)",
 		"vaxis.(*writer).Flush":       "flush of the buffer",
-		"vaxis.(*Vaxis).render":       "cell grapheme: printable text, handled by the emulator's print (C12.e coordinate chain)",
 	}
 	st.sgrEffects = map[string][]c12Effect{}
 	if st.seen == nil {
@@ -929,7 +989,7 @@ func (st *c12State) maskAtoms(e *Emission) map[string]bool {
 				continue
 			}
 			for _, at := range c12GuardAtoms(gd.Cond.Expr, gd.Pol) {
-				if x, m, ok := c12MaskTest(info, at.e, at.pol); ok {
+				if x, m, ok := c12MaskTest(info, at.e, at.pol, st.rows[e]); ok {
 					if role := st.attrRole(cx.fn, x); role != "" {
 						out[fmt.Sprintf("%s&%d", role, m)] = true
 					}
@@ -1359,7 +1419,6 @@ func (st *c12State) isCellText(fn *FuncInfo, e ast.Expr, depth int) bool {
 	}
 	return true
 }
-
 
 // checkDECSCUSR: the cursor style the renderer sends is the cursor style the emulator records (and hands to
 // the host in Draw): on every path the stored style is the parameter itself — 0 (the user's default) stays 0.
